@@ -360,7 +360,7 @@ impl<Aux> Vm<'_, Aux> {
             };
 
         while *instr_ptr < len {
-            remaining_iters -= 1;
+            remaining_iters = remaining_iters.saturating_sub(1);
             if remaining_iters == 0 {
                 return Err(payload_to_error(
                     ExecutionErrorPayload::Timeout,
